@@ -250,7 +250,8 @@ func computeRuleChainMinPhase(r *Rule) {
 					singleChainedRuleMinPhase = min
 				}
 			}
-			if r.chainMinPhase == types.PhaseUnknown || singleChainedRuleMinPhase > r.chainMinPhase {
+			if (r.chainMinPhase == types.PhaseUnknown || singleChainedRuleMinPhase > r.chainMinPhase) &&
+				singleChainedRuleMinPhase != r.chainMinPhase {
 				r.chainMinPhase = singleChainedRuleMinPhase
 			}
 		}
